@@ -321,7 +321,10 @@ def empty_skips(ctx, cr):
         ops = vnames(cr, CO)
         f = cr.fns[key]
         ER_ = EVAL + "EvaluationResult"
-        for opname in ("Exists", "IsString", "Empty"):
+        unary = [o for o in ops if o in ("Exists", "Empty") or o.startswith("Is")]
+        if len(unary) < 9:
+            ctx.lost(rule, rule + ":unary_operation:operators", "only %d unary operators found in CmpOperator (floor 9)" % len(unary))
+        for opname, opneg, inverse in [(o, n_, i_) for o in unary for n_ in (False, True) for i_ in (False, True)]:
             rets = []
 
             class H(S.StatusHooks):
@@ -343,11 +346,12 @@ def empty_skips(ctx, cr):
                     return None
             h = H(cr)
             a = ai.AI(cr, h, max_states=900000)
-            cmpv = ("tuple", (("enum", CO, ops.index(opname), ()), ("bool", False)))
+            cmpv = ("tuple", (("enum", CO, ops.index(opname), ()), ("bool", opneg)))
+            label = ("not " if inverse else "") + ("!" if opneg else "") + opname
             try:
-                a.run(key, args=[None, cmpv, ("bool", False), None, None, None], mon=Mon())
+                a.run(key, args=[None, cmpv, ("bool", inverse), None, None, None], mon=Mon())
             except ai.Undecided as e:
-                ctx.ob(rule, "%s:unary_operation:%s" % (rule, opname), False, "undecided %s" % e, fn=f)
+                ctx.ob(rule, "%s:unary_operation:%s" % (rule, label), False, "undecided %s" % e, fn=f)
                 continue
             ctx.states += a.n_states
             bad = []
@@ -360,8 +364,8 @@ def empty_skips(ctx, cr):
                         continue
                     n += 1
                     if not (inner[0] == "enum" and inner[1] == ER_ and S.status_of(inner[3][0]) == 2):
-                        bad.append("empty selection under %s gives %s" % (opname, ai.fmt_val(inner, cr)[:60]))
-            ctx.ob(rule, "%s:unary_operation:%s" % (rule, opname), not bad and (n >= 1 or opname == "Empty"),
+                        bad.append("empty selection under %s gives %s" % (label, ai.fmt_val(inner, cr)[:60]))
+            ctx.ob(rule, "%s:unary_operation:%s" % (rule, label), not bad and (n >= 1 or opname == "Empty"),
                    "; ".join(sorted(set(bad))[:2]) or "%d empty-selection paths return EmptyQueryResult(SKIP)" % n, fn=f)
     # CmpOperator::compare: empty lhs or rhs => Skip
     key = "<rules::values::CmpOperator as rules::eval::operators::Comparator>::compare"
